@@ -398,16 +398,66 @@ def phase_leave(args):
     return dict(phase="leave", states=4, transitions=n, viols=viols[:20], nviols=len(viols))
 
 
+def phase_reentrant(args):
+    """(vi) a transport that hands the datagram to a peer which answers synchronously: while a send is inside sendto(),
+    further sends happen - to the same destination, to another one, an empty one; shortly before and across the wrap"""
+    seed = args
+    viols = []
+    n = 0
+    for start, nested_kind in itertools.product((1, 0xFFFF - 2), ("same", "other", "empty", "same-twice")):
+        loop = VLoop().install()
+        try:
+            prot = make_sd(loop)
+            model = Model()
+            for _ in range(start - 1):
+                send_and_decode(prot, P1)
+                model.take(P1)
+            depth = [0]
+
+            def sink(data, addr, transport):
+                if depth[0] or addr != P1:
+                    return
+                depth[0] += 1
+                try:
+                    if nested_kind in ("same", "same-twice"):
+                        prot.send_sd([ENTRY], remote=P1)
+                    if nested_kind == "same-twice":
+                        prot.send_sd([ENTRY], remote=P1)
+                    if nested_kind == "other":
+                        prot.send_sd([ENTRY], remote=P2)
+                    if nested_kind == "empty":
+                        prot.send_sd([], remote=P1)
+                finally:
+                    depth[0] -= 1
+
+            prot.transport.sink = sink
+            prot.transport.sent.clear()
+            for _ in range(4):
+                prot.send_sd([ENTRY], remote=P1)
+            prot.transport.sink = None
+            for _, _, data, addr in prot.transport.sent:
+                for m in refcodec.dec_sd_datagram(data):
+                    n += 1
+                    want = model.take(addr)
+                    if (m["reboot"], m["session"]) != want:
+                        viols.append(("sequence", "id-reentrant-send", f"nested send ({nested_kind}) while a send to {P1} is inside "
+                                      f"sendto(), from id {start}: message to {addr} carries {(m['reboot'], m['session'])}, "
+                                      f"expected {want}", None))
+        finally:
+            loop.dispose()
+    return dict(phase="reentrant", states=8, transitions=n, viols=viols[:20], nviols=len(viols))
+
+
 def _run(job):
     kind, args = job
     return {"cycle": phase_cycle, "interleave": phase_interleave, "notify": phase_notify,
-            "sendrecv": phase_sendrecv, "leave": phase_leave}[kind](args)
+            "sendrecv": phase_sendrecv, "leave": phase_leave, "reentrant": phase_reentrant}[kind](args)
 
 
 def check(ctx):
     jobs = [("cycle", (ctx.seed, 20)), ("interleave", (ctx.seed, 3, 6)), ("notify", (ctx.seed, 8200)),
             ("sendrecv", (ctx.seed, ctx.pick(4, 6))), ("interleave", (ctx.seed, 3, 4, "v6scope")),
-            ("interleave", (ctx.seed, 3, 5, "fresh")), ("interleave", (ctx.seed + 1, 2, 6, "fresh")), ("leave", ctx.seed)]
+            ("interleave", (ctx.seed, 3, 5, "fresh")), ("interleave", (ctx.seed + 1, 2, 6, "fresh")), ("leave", ctx.seed), ("reentrant", ctx.seed)]
     if ctx.thorough:
         jobs += [("interleave", (ctx.seed, 4, 8)), ("interleave", (ctx.seed + 1, 2, 12)),
                  ("notify", (ctx.seed, 17000))]
